@@ -302,8 +302,10 @@ namespace Givaro {
         return res |= a;
     }
     uint64_t Integer::operator& (const uint64_t & a) const
-    {   // AND
-        return mpz_get_ui((mpz_srcptr)&(gmp_rep)) & a;
+    {   // AND (two's complement, as for the Integer overload; the result is in [0,a])
+        Integer res(*this);
+        res &= a;
+        return mpz_get_ui((mpz_srcptr)&(res.gmp_rep));
     }
     Integer Integer::operator^ (const uint32_t& a) const
     {   // XOR
@@ -316,8 +318,10 @@ namespace Givaro {
         return res |= a;
     }
     uint32_t Integer::operator& (const uint32_t& a) const
-    {   // AND
-        return (uint32_t) (mpz_get_ui((mpz_srcptr)&(gmp_rep)) & (uint64_t)a );
+    {   // AND (two's complement, as for the Integer overload; the result is in [0,a])
+        Integer res(*this);
+        res &= a;
+        return (uint32_t) mpz_get_ui((mpz_srcptr)&(res.gmp_rep));
     }
     Integer Integer::operator~ () const
     {   // 1 complement
